@@ -118,6 +118,9 @@ class RecordStreamReader:
 
         size = struct.unpack(">I", d)[0]
         d = self.fp.read(size)
+        if len(d) != size:
+            # The frame is incomplete (truncated or damaged stream), what is left must not be taken for a frame
+            raise EOFError()
         return self.packer.unpack(d)
 
     def close(self):
